@@ -17,7 +17,7 @@ import zlib
 
 from vf import iso
 from vf.c13_zygote import Zygote
-from vf.c13_case import CALLS, PEER_MSGS, PRE_ACTIONS, api_name
+from vf.c13_case import CALLS, PEER_MSGS, PRE_ACTIONS, SHAPES_RECV, SHAPES_SEND, api_name
 
 META = dict(
     title="blocking calls return once the connection ends",
@@ -74,6 +74,9 @@ GARBAGE = ["bad_mac", "unknown_channel", "disconnect"]
 READING_CALLS = ["recv", "recv_stderr", "recv_exit_status", "file_read", "sftp_stat"]
 PEER_MSG_PARKED = ["recv", "recv_stderr", "recv_exit_status", "send", "sftp_stat"]
 PEER_MSG_LATER = ["exec_command", "invoke_shell"]
+SHAPE_CALLS = ["recv", "accept", "exec_command", "auth_password", "global_request", "recv_exit_status",
+               "open_session", "sftp_stat", "renegotiate_keys"]
+SHAPE_VARIANTS = ["recv:" + x for x in SHAPES_RECV] + ["send:" + x for x in SHAPES_SEND]
 
 
 def shards(tier):
@@ -128,6 +131,7 @@ def pinned(call, seed, ci):
         out.append(mk(call, "link_eof", None, "before", role="client"))
     if call.endswith("_svc"):
         out.append(mk(call, "link_eof", None, "before"))
+        out.append(mk(call, "garbage", "disconnect", "before"))
     return out
 
 
@@ -168,6 +172,16 @@ def quick_cases(ctx, calls):
                 out.append(mk(call, l1, None, "before", pre=pre))
                 out.append(mk(call, l2, None, ["after", "during"][(ci + pi + ctx.seed) % 2], pre=pre,
                               f=round(rng.random(), 3)))
+        # an orderly DISCONNECT from the peer (the transport ends without a saved exception)
+        if not (call.endswith("_svc")):
+            out.append(mk(call, "garbage", "disconnect", "before" if spec.get("auth") else TIMINGS[(ci + 1 + ctx.seed) % 3],
+                          f=round(rng.random(), 3)))
+        if call in SHAPE_CALLS:
+            # shape of the exception raised by the socket-like object, from recv and from send
+            sc = SHAPE_CALLS.index(call)
+            for si, sv in enumerate(SHAPE_VARIANTS):
+                if (si + sc + ctx.seed) % 3 == 0:
+                    out.append(mk(call, "sock_raises", sv, TIMINGS[(si // 3 + sc + ctx.seed) % 3], f=round(rng.random(), 3)))
         if call in PEER_MSG_PARKED or call in PEER_MSG_LATER:
             # a protocol-level message from the peer names the established channel, then the loss
             for pi, pm in enumerate(PEER_MSGS):
@@ -229,6 +243,9 @@ def thorough_extra(ctx, calls):
                     out.append(mk(call, "proxy_exit", "kill", "before", medium="proxy", pre=pre))
                     out.append(mk(call, "garbage", "bad_mac", "before", role=role, pre=pre))
                     out.append(mk(call, "send_fails_first", "global_request", "before", role=role, pre=pre))
+        for sv in SHAPE_VARIANTS:
+            for timing in ("before", "after"):
+                out.append(mk(call, "sock_raises", sv, timing))
         if call in PEER_MSG_PARKED or call in PEER_MSG_LATER:
             for role in spec["roles"]:
                 for pm in PEER_MSGS:
@@ -291,6 +308,9 @@ def loss_name(a):
         return "ProxyCommand process exit"
     if loss == "garbage":
         return "protocol garbage (%s)" % a["variant"]
+    if loss == "sock_raises":
+        where, shape = a["variant"].split(":", 1)
+        return "the socket object's %s raising %s" % (where, shape)
     if loss == "send_fails_first":
         return "a failed user write (send raises EPIPE while inbound requests + FIN are still queued)"
     if a["medium"] == "proxy":
@@ -347,6 +367,12 @@ def judge(ctx, a, res, sample=False):
     ctx.count("loss_" + a["loss"])
     ctx.count("timing_" + a["timing"])
     ctx.count("medium_" + a["medium"])
+    if a["loss"] == "sock_raises":
+        ctx.count("shape_" + a["variant"].replace(":", "_"))
+    if a["loss"] == "garbage" and a["variant"] == "disconnect":
+        ctx.count("loss_peer_disconnect")
+    if v.get("v_thread_done_at_call"):
+        ctx.count("calls_made_after_transport_thread_finished")
     pre = a.get("pre")
     if pre:
         ctx.count("pre_" + pre)
@@ -564,6 +590,10 @@ def _run(ctx):
         for pre in PRE_ACTIONS:
             ctx.require("pre_" + pre, 2 * len(READING_CALLS) - 2)
             ctx.require("pre_%s_calls_completed" % pre, len(READING_CALLS))
+        for sv in SHAPE_VARIANTS:
+            ctx.require("shape_" + sv.replace(":", "_"), 2)
+        ctx.require("loss_peer_disconnect", len(names) - 2)
+        ctx.require("calls_made_after_transport_thread_finished", len(names))
         for pm in PEER_MSGS:
             ctx.require("pre_" + pm, len(PEER_MSG_PARKED) + len(PEER_MSG_LATER) - 1)
         ctx.require("peer_msgs_decoded_by_victim", 4 * (len(PEER_MSG_PARKED) + len(PEER_MSG_LATER)))
